@@ -15,7 +15,7 @@ from ..model import leaftypes as LT
 from ..model import trees as TM
 
 LEVEL = "exploration"
-TECHNIQUE = "runtime monitoring: reference model in which '?name' at leaf i of structure T is the fresh axis (T,i,name), compared with decorated-call and manual-check verdicts on generated tree tuples; misuse forms must raise AnnotationError; structured sibling PyTrees in the leaf type; arrays whose shape property makes nested jaxtyped calls; structure names spelled with whitespace; short-lived trees in one scope; symbolic axes naming the plain axis next to a per-leaf '?' axis of the same name"
+TECHNIQUE = "runtime monitoring: reference model in which '?name' at leaf i of structure T is the fresh axis (T,i,name), compared with decorated-call and manual-check verdicts on generated tree tuples; misuse forms must raise AnnotationError; structured sibling PyTrees in the leaf type; arrays whose shape property makes nested jaxtyped calls; structure names spelled with whitespace; short-lived trees in one scope; symbolic axes naming the plain axis next to a per-leaf '?' axis of the same name; scripted series over a broadcastable per-leaf variadic axis '#*?s' next to the plain '*s'"
 LEVEL_TEXT = (
     "Held on every generated pair/triple of trees with independently drawn per-leaf sizes, leaf types with '?n', '*?n', "
     "'?n m' alone and inside Union/tuple/structure-less PyTree, both typecheckers and manual checks. Sampling, not proof."
@@ -62,6 +62,10 @@ LEAFTYPES = [
     # the leaf check itself raises AnnotationError after '?n' was bound (state must not outlive the check)
     S("?n zz+1"),
     # a symbolic axis that names the PLAIN axis 'n' next to the per-leaf axis '?n': the expression means the plain one
+    # broadcastable per-leaf variadic axes, seen again and again at the same leaf position; next to the plain '*s'
+    S("#*?s"),
+    S("#*?s 2"),
+    S("#*?s n"),
     S("?n n+1"),
     S("n ?n n+1"),
     ("tuple", [S("?n"), S("n+1 ?n")]),
@@ -100,7 +104,7 @@ def required_counters(tier):
         "style.beartype": 200,
         "style.manual": 200,
         "sibling_structured.usable": 50, "keypath.cases": 40, "toplevel_structured_checks_judged": 200,
-        "sibling_structured.ambiguous": 30, "temporaries.checks": 100,
+        "sibling_structured.ambiguous": 30, "temporaries.checks": 100, "broadcast_variadic.steps": 18,
     }
 
 
@@ -350,6 +354,45 @@ def run_case(rec, rng, rngkey=None):
             rec.violation("misuse", {"form": name, "dims": Sn.dim_str, "tree": GT.describe(tree), "rngkey": rngkey}, f"'?' {name}: expected AnnotationError, got {got}", mechanism=f"misuse-{name}-{got}")
 
 
+def run_broadcast_variadic_cases(rec):
+    """a broadcastable per-leaf variadic axis `#*?s`: what a leaf position has accumulated over several trees of one
+    structure stays with that position (it grows by broadcasting, and rejects what no longer fits), and the plain
+    `*s` of the same name around it is a different axis altogether"""
+    import jaxtyping
+
+    N = np.ndarray
+
+    def A(*shape):
+        return np.zeros(shape, dtype="float32")
+
+    for style in ("fresh-annotation-each-time", "one-annotation-object"):
+        P0 = jaxtyping.PyTree[jaxtyping.Float[N, "#*?s"], "T"]
+        S0 = jaxtyping.Float[N, "*s"]
+        P = (lambda: P0) if style == "one-annotation-object" else (lambda: jaxtyping.PyTree[jaxtyping.Float[N, "#*?s"], "T"])
+        S = (lambda: S0) if style == "one-annotation-object" else (lambda: jaxtyping.Float[N, "*s"])
+
+        def body():
+            return [
+                ("plain *s binds (7,)", real.check(A(7), S()), "ok"),
+                ("tree 1: position 0 is (1,3)", real.check((A(1, 3), A(2)), P()), "ok"),
+                ("tree 2: position 0 is (4,3) - broadcasts", real.check((A(4, 3), A(2)), P()), "ok"),
+                ("tree 3: position 0 is (5,3) - no longer fits (4,3)", real.check((A(5, 3), A(2)), P()), "no"),
+                ("tree 4: position 0 is (4,3) again", real.check((A(4, 3), A(2)), P()), "ok"),
+                ("tree 5: position 1 is (3,) - does not fit (2,)", real.check((A(4, 3), A(3)), P()), "no"),
+                ("plain *s is still (7,)", real.check(A(7), S()), "ok"),
+                ("plain *s rejects (2,)", real.check(A(2), S()), "no"),
+                ("plain *s rejects (4,3)", real.check(A(4, 3), S()), "no"),
+            ]
+
+        out = real.in_block_context(body)
+        rec.count("broadcast_variadic.steps", len(out))
+        rec.case(("broadcast-variadic", style), True)
+        for what, got, want in out:
+            if got != want:
+                rec.violation("verdict", {"broadcast_variadic": style, "step": what, "all": [[w, g, x] for w, g, x in out]}, f"PyTree[Float[ndarray, '#*?s'], 'T'] next to Float[ndarray, '*s'] ({style}): {what} -> {got}, expected {want}", mechanism="per-leaf-broadcast-variadic-" + ("leaks-into-plain-axis" if what.startswith("plain") else "position-forgets-what-it-accumulated"))
+                return
+
+
 def run_keypath_cases(rec):
     """leaf POSITIONS are what '?' axes hang on, whatever the keys along the way look like: dictionaries whose key
     paths read alike ('enc' -> 'w' and the single key 'enc/w', a list index and the key 'layers/0', keys that contain
@@ -398,6 +441,7 @@ def run_shard(rec, seed, shard, tier):
     GT.ensure_registered()
     if shard["i"] == 0:
         run_keypath_cases(rec)
+        run_broadcast_variadic_cases(rec)
     for k in range(CASES[tier]):
         key = f"{seed}/C16/{shard['i']}/{k}"
         try:
